@@ -72,6 +72,9 @@ StartStatus ==
 (* ---------------- Stop (user, graceful) ---------------- *)
 StopCall ==
   /\ Idle
+  \* (a stop that is refused changes nothing: no point in repeating it back to back in a generated schedule)
+  /\ IF published # None /\ memStatus \in {"Running", "Recovering"} THEN TRUE
+     ELSE IF script = <<>> THEN TRUE ELSE script[Len(script)] # "Stop"
   /\ IF published # None /\ memStatus \in {"Running", "Recovering"}
        THEN /\ stopReq' = [stopReq EXCEPT ![published] = TRUE]
             /\ userStopped' = TRUE /\ UNCHANGED stopRefused
